@@ -4,7 +4,7 @@
    attacker-chosen ciphertext are all just trees and oracle answers.
    [Vouched dsig el a]: a is the decoding of the tree the oracle returned (= the re-parsed canonical bytes whose digest
    it verified) for the detached copy of a DIRECT child Assertion element of el, with its flag set. *)
-From V Require Import Base Time Xml Ns Types Profile Decode Response P_Ns P_Response.
+From V Require Import Base Time Escape Xml Ns Types Profile Decode Response P_Ns P_Response Dsig P_Dsig.
 
 Theorem C01_response_sound : forall dsig decrypt cfg now root r,
   cfg_skip_sig cfg = false ->
@@ -51,3 +51,20 @@ Theorem C01_assertion_info_from_validated_response : forall dsig decrypt cfg now
             ai_response_signature_validated i = r_signature_validated r /\ ai_assertions i = r_assertions r.
 Proof. exact retrieve_info_ok. Qed.
 Print Assumptions C01_assertion_info_from_validated_response.
+
+(* ---- end to end with the model of the pinned signature library in place of the oracle (Dsig.v) ----
+   [Covered ... root v]: a ds:Signature element inside root passed the shape check and carries a reference matching root's ID;
+   its certificate is a store member inside its window at the clock; sig_ok accepted the canonical SignedInfo; the digest of the
+   reference used equals the digest of the canonical form of root after the transforms; v is the parse of exactly those bytes. *)
+Theorem C01_end_to_end_with_signature_model : forall canon digest sig_ok parse_cert reparse store decrypt cfg now root r,
+  cfg_skip_sig cfg = false ->
+  validate_response_tree (dsig_validate canon digest sig_ok parse_cert reparse store now) decrypt cfg now root = Ok r ->
+  (r_signature_validated r = true /\
+   exists v signed' r0, Covered canon digest sig_ok parse_cert reparse store now root v /\ decrypt_assertions decrypt v = Ok signed' /\
+                        unmarshal_response signed' = Ok r0 /\ r = with_flag r0 true (r_assertions r0) (r_encrypted_count r0))
+  \/
+  (r_signature_validated r = false /\ find_signature root = Err EMissingSignature /\
+   exists root', decrypt_assertions decrypt root = Ok root' /\
+                 Forall (CoveredAssertion canon digest sig_ok parse_cert reparse store now root') (r_assertions r)).
+Proof. exact response_end_to_end. Qed.
+Print Assumptions C01_end_to_end_with_signature_model.
